@@ -165,6 +165,12 @@ def reader_only_bounds(F, ck, pairs, sp):
                 if i.get('k') == 'MCall' and i.get('n') in COUNT_READS:
                     counts[x['p']['id']] = x['p']['n']
         ncounts += len(counts)
+        decoded = {}
+        for x in walk(rf.body):
+            if x.get('k') == 'Let' and 'i' in x and x['p'].get('k') == 'Bind':
+                if any(y.get('k') == 'MCall' and (y.get('n') or '').startswith('read_') for y in walk(x['i'])) or \
+                        any(y.get('k') == 'Local' and y['id'] in decoded for y in walk(x['i'])):
+                    decoded[x['p']['id']] = x['p']['n']
         for x in walk(rf.body):
             if x.get('k') != 'If':
                 continue
@@ -174,6 +180,15 @@ def reader_only_bounds(F, ck, pairs, sp):
             nguards += 1
             for c in walk(x['c']):
                 if c.get('k') != 'Bin' or c.get('op') not in CMP:
+                    continue
+                lids = {y['id'] for y in walk(c['l']) if y.get('k') == 'Local' and y.get('n') != 'self'}
+                rids = {y['id'] for y in walk(c['r']) if y.get('k') == 'Local' and y.get('n') != 'self'}
+                if lids and rids and lids <= set(decoded) and rids <= set(decoded):
+                    # a relation between two decoded values: only a writer that checks the same relation can guarantee it
+                    wok = wf.body is not None and any(y.get('k') == 'Bin' and y.get('op') in CMP for y in walk(wf.body))
+                    ck.ob('R17.8', 'relation:%s:%s~%s' % (name, decoded[sorted(lids)[0]], decoded[sorted(rids)[0]]), wok, 'the writer checks a relation as well' if wok else
+                          'READER-ONLY CHECK: %s refuses a stream when a relation between two decoded values (`%s`, `%s`) fails, but %s writes them without any check: '
+                          'an object the writer accepts and encodes is refused when read back' % (rf.qual, decoded[sorted(lids)[0]], decoded[sorted(rids)[0]], wf.qual), x.get('s'))
                     continue
                 for a, b in ((c['l'], c['r']), (c['r'], c['l'])):
                     ids = {y['id'] for y in walk(a) if y.get('k') == 'Local'}
@@ -189,6 +204,42 @@ def reader_only_bounds(F, ck, pairs, sp):
                           'an object the writer accepts and encodes is refused when read back' % (rf.qual, cnt, wf.qual), x.get('s'))
     ck.floor('R17.8', 'decoded counts in readers (locals bound to read_usize / read_uN)', ncounts, 60)
     ck.floor('R17.8', 'Err-returning guards in readers examined', nguards, 1)
+
+
+def decode_context(F, ck):
+    """R17.9: gate (and generator) decoders receive the circuit's common data as decoding context and read some of its fields
+    (today: the lookup tables, which a LookupGate stores by index). read_common_circuit_data builds that context itself, before
+    the gates are read, with placeholders for what is not decoded yet: no field that any decoder reads may be a placeholder."""
+    ck.rule('R17.9', 'the partially built CommonCircuitData that read_common_circuit_data hands to the gate decoders carries decoded data (not a placeholder) in every field that some Gate::deserialize / generator deserialize reads')
+    used = {}
+    for f in F.fns.values():
+        if f.crate != 'plonky2' or f.body is None or f.name != 'deserialize':
+            continue
+        for x in walk(f.body):
+            if x.get('k') != 'Field':
+                continue
+            e = x['e']
+            while e.get('k') in ('Un', 'Ref'):
+                e = e['e']
+            if e.get('k') == 'Local' and 'CommonCircuitData' in (f.ty(e) or ''):
+                used.setdefault(x['n'], []).append(f.qual)
+    ck.floor('R17.9', 'fields of the decoding context read by deserialize implementations', len(used), 1)
+    fn = F.one('Read::read_common_circuit_data', crate='plonky2')
+    if fn is None or fn.body is None:
+        ck.ob('R17.9', 'anchor', False, 'ANCHOR-MISSING Read::read_common_circuit_data')
+        return
+    lits = [x for x in walk(fn.body) if x.get('k') == 'Struct' and x.get('d', '').endswith('CommonCircuitData')]
+    gate_reads = [x for x in walk(fn.body) if x.get('k') == 'MCall' and x.get('n') == 'read_gate']
+    if len(lits) != 1 or not gate_reads:
+        ck.ob('R17.9', 'anchor', False, 'ANCHOR-MISSING: read_common_circuit_data no longer builds one CommonCircuitData literal and reads gates with it (%d literals, %d read_gate calls)' % (len(lits), len(gate_reads)))
+        return
+    placeholders = [n for n, i in lits[0]['f'] if not any(y.get('k') == 'Local' for y in walk(i))]
+    ck.floor('R17.9', 'placeholder fields in the decoding context (gates)', len(placeholders), 1)
+    for n in sorted(used):
+        ok = n not in placeholders
+        ck.ob('R17.9', 'context:' + n, ok, 'decoded before the gates are read (read by %d decoders)' % len(used[n]) if ok else
+              'DECODING CONTEXT: %s read common_data.%s while decoding, but read_common_circuit_data passes them a context in which %s is still a placeholder: '
+              'circuits whose gates refer to it (lookup tables by index) cannot be restored - the decoder indexes an empty list' % (', '.join(sorted(set(used[n]))[:3]), n, n), lits[0].get('s'))
 
 
 def run(F, ck, tier):
@@ -245,6 +296,7 @@ def run(F, ck, tier):
     from . import c16
     c16.uniform_arity(F, ck, 'R17.7')
     reader_only_bounds(F, ck, pairs, sp)
+    decode_context(F, ck)
     # ---------------------------------------------------------------- R17.6
     ck.rule('R17.6', 'a decoder that reads circuit data and a proof from one stream reads the proof with THAT circuit data (the writer stored them together), not with the enclosing circuit\'s')
     PROOF_READS = {'read_proof_with_public_inputs', 'read_compressed_proof_with_public_inputs', 'read_proof', 'read_compressed_proof'}
